@@ -95,6 +95,16 @@ pub fn run(ctx: &Ctx) {
     { let mut d = one("S", J::obj(vec![("a", J::n("1"))])); d.types.push(("S".into(), sv(&[("a", "T")]))); km.push(("undefined-nested-type".into(), d)); }
     { let mut d = one("S[]", J::Arr(vec![])); d.types.push(("S".into(), sv(&[("a", "T")]))); km.push(("undefined-nested-type-behind-empty-array".into(), d)); }
     ctx.sweep("kinds-and-undefined-types", "every declared kind x every JSON kind; references to undefined or near-miss type names", km.len() as u64, |i| { let (s, d) = &km[i as usize]; check_doc(ctx, P, "kinds-and-undefined-types", i, s, d); });
+    // (g) member-type grammar: base x width spelling x array-size spelling
+    let mut tg: Vec<(String, Doc)> = Vec::new();
+    for base in ["uint", "int", "bytes"] { for w in ["", "0", "1", "7", "8", "08", "008", "9", "16", "016", "31", "32", "032", "33", "64", "248", "255", "256", "0256", "257", "264", "+8", "8 ", " 8", "8x", "0x8", "\u{661}", "\u{ff18}", "8.0", "1e1"] {
+        for suf in ["", "[]", "[1]", "[01]", "[+1]", "[ 1]", "[1 ]", "[0x1]", "[-1]", "[1e0]", "[1][]", "[][01]"] {
+            let ty = format!("{base}{w}{suf}");
+            let scalar = if base == "bytes" { let n: usize = w.trim().trim_start_matches('+').trim_start_matches('0').parse().unwrap_or(0); J::Str(format!("0x{}", "ab".repeat(n.min(40)))) } else { J::n("1") };
+            let depth = suf.matches('[').count(); let mut v = scalar; for _ in 0..depth { v = J::Arr(vec![v]); }
+            let d = one(&ty, v); let cls = refmodel::eip712::evaluate(&d).0.name();
+            tg.push((format!("type-grammar:{base}:{}:{cls}", if refmodel::eip712::lenient_canonical(&ty).is_some() { "exotic-spelling" } else { "as-written" }), d)); } } }
+    ctx.sweep("member-type-grammar", "member types base {uint, int, bytes} x 30 width spellings (valid, invalid, leading zeros, signs, blanks, non-ASCII digits) x 12 array-suffix spellings with a fitting value: accepted only as the type it canonically means (or refused when the spelling is exotic), refused otherwise", tg.len() as u64, |i| { let (s, d) = &tg[i as usize]; check_doc(ctx, P, "member-type-grammar", i, s, d); });
     // (f) position sweep: every offending value at every node of a nested template
     let t = template(); let mut ns = Vec::new(); nodes(&t, "Top", &t.message, &mut Vec::new(), &mut ns);
     let mut single: Vec<(String, Vec<Step>, Option<J>)> = Vec::new();
